@@ -39,6 +39,13 @@ TECHNIQUE = "Lean 4 proof (state-machine invariants over the executable engine m
 
 
 def mk_seq(rng, desc, length):
+    if desc.get("tsukamoto_scenario"):
+        # a first step in which no term reaches the output (all blocks off), then ordinary steps; a copy whose weighted
+        # defuzzifier is reconfigured; the original must be unaffected and every step must equal a fresh engine's
+        r1 = G.gen_rows(rng, desc, 1, special=False)[0]
+        r2 = G.gen_rows(rng, desc, 1, special=False)[0]
+        return [["set", r1], ["toggle_blocks"], ["process"], ["copy"], ["edit", "wtype", 0, 0.0], ["set", r2], ["process"],
+                ["restart"], ["set", r1], ["process"]]
     if rng.random() < 0.3:
         # scenario: a value is established, then restart (or copy + restart), then a step whose outputs are NaN:
         # anything that survived the restart shows up through lock-previous
@@ -82,6 +89,16 @@ def apply_edit(e, d, op):
         d[grp][vi]["terms"][ti]["height"] = val
         var = (e.input_variables if grp == "inputs" else e.output_variables)[vi]
         var.terms[ti].height = val
+        return True
+    if kind == "wtype":
+        # a weighted output over monotonic terms, left at Automatic (Tsukamoto inferred): fix the kind to TakagiSugeno
+        cands = [vi for vi, v in enumerate(d["outputs"]) if "type" in v["defuzzifier"] and v["defuzzifier"]["type"] == "Automatic"
+                 and all(t["kind"] == "shape" for t in v["terms"])]
+        if not cands:
+            return False
+        vi = cands[pick % len(cands)]
+        d["outputs"][vi]["defuzzifier"]["type"] = "TakagiSugeno"
+        e.output_variables[vi].defuzzifier.type = fl.WeightedDefuzzifier.Type.TakagiSugeno
         return True
     if kind == "weight":
         cands = [(bi, ri) for bi, b in enumerate(d["blocks"]) for ri, _ in enumerate(b["rules"])]
@@ -181,6 +198,26 @@ def run_impl(desc, ops):
         elif op[0] == "edit":
             if apply_edit(E["e"], E["d"], op):
                 E["stream"].append(["reconfig", G.engine_sx(E["d"])])
+        elif op[0] == "toggle_blocks":
+            # every rule block is switched off for one processing step (no term reaches any output), then restored
+            olds = [b.enabled for b in E["e"].rule_blocks]
+            for b, bd in zip(E["e"].rule_blocks, E["d"]["blocks"]):
+                b.enabled = False
+                bd["enabled"] = False
+            E["stream"].append(["reconfig", G.engine_sx(E["d"])])
+            got = proc(E["e"])
+            if lock_free(E["d"]) and all(o["enabled"] for o in E["d"]["outputs"]):
+                f = G.build(E["d"])
+                for iv, v in zip(f.input_variables, E["inputs"] or [math.nan] * len(f.input_variables)):
+                    iv.value = v
+                E["fresh_pairs"].append((got, proc(f)))
+            E["obs"].append(got)
+            E["stream"].append(["process"])
+            E["clean"] = False
+            for b, bd, old in zip(E["e"].rule_blocks, E["d"]["blocks"], olds):
+                b.enabled = old
+                bd["enabled"] = old
+            E["stream"].append(["reconfig", G.engine_sx(E["d"])])
         elif op[0] == "toggle":
             obj, dd = toggle_target(E["e"], E["d"], op[1], op[2])
             old = obj.enabled
@@ -276,6 +313,22 @@ def gen_cases(ctx):
         for o in desc["outputs"]:
             if rng.random() < 0.6:
                 o["lock_previous"] = False
+        if rng.random() < 0.15:
+            # an output of the Tsukamoto kind left at Automatic: monotonic terms only
+            o = desc["outputs"][0]
+            for t in list(o["terms"]):
+                cls, ps, h = G.shape_term(rng, "", o["min"], o["max"], False, classes=["Ramp", "SShape", "ZShape", "Sigmoid"])
+                t.clear()
+                t.update({"name": t.get("name") or "", "kind": "shape", "cls": cls, "params": ps, "height": h})
+            for j, t in enumerate(o["terms"]):
+                t["name"] = f"o0t{j}"
+            o["defuzzifier"] = {"kind": rng.choice(["WeightedAverage", "WeightedSum"]), "type": "Automatic"}
+            o["aggregation"] = None
+            for oo in desc["outputs"]:
+                oo["lock_previous"] = False
+                oo["enabled"] = True
+            desc["exact"] = False
+            desc["tsukamoto_scenario"] = True
         yield {"engine": desc, "ops": mk_seq(rng, desc, rng.randint(3, ctx.scale(8, 12)))}
 
 
